@@ -30,6 +30,9 @@ PURE_STR_METHODS = {"strip", "lstrip", "rstrip", "lower", "upper", "startswith",
 
 def eval_call(self, st, node):
     res = []
+    if isinstance(node.func, ast.Name) and node.func.id in ("any", "all") and len(node.args) == 1 and not node.keywords \
+            and isinstance(node.args[0], ast.GeneratorExp) and node.func.id not in st.frames[-1] and node.func.id not in self.stubs:
+        return self.x_any_all(st, node, node.args[0], node.func.id == "any")
     # -- evaluate callee
     for (s, k, fn) in self.eval(st, node.func):
         if k != "val":
@@ -523,6 +526,29 @@ def set_method(self, st, ref, o, name, args, kwargs, node):
             else:
                 o.items = None
         return [(st, "val", None)]
+    if name in ("union", "copy", "difference", "intersection") and o.items is not None:
+        items = list(o.items)
+        ok = True
+        for a in args:
+            try:
+                kind, seq = self.iter_values(st, a, node) if not isinstance(a, Top) else (None, None)
+            except AnalysisError:
+                kind, seq = None, None
+            if kind != "concrete":
+                ok = False
+                break
+            seq = list(seq)
+            if name == "union":
+                for x in seq:
+                    if not any(_same_member(self, st, x, y) for y in items):
+                        items.append(x)
+            elif name == "difference":
+                items = [y for y in items if not any(_same_member(self, st, x, y) for x in seq)]
+            elif name == "intersection":
+                items = [y for y in items if any(_same_member(self, st, x, y) for x in seq)]
+        if ok:
+            return [(st, "val", st.alloc(HObj("set", kind="set", items=items)))]
+        return [(st, "val", st.alloc(HObj("set", kind="set", items=None)))]
     return [(st, "val", Top("set." + name))]
 
 
@@ -584,14 +610,19 @@ def call_builtin(self, st, name, args, kwargs, node):
         return [(st, "val", None)]
     if name == "len":
         v = args[0]
+        exact = getattr(self, "int_sat", 2) > 2       # constant mode: lengths are exact numbers
         if isinstance(v, (str, tuple, frozenset)):
             n = len(v)
+            if exact:
+                return [(st, "val", n)]
             return [(st, "val", n if n < 2 else (GE2 if n > 2 else 2))]
         if isinstance(v, Ref):
             o = st.obj(v)
             if o.kind in ("list", "set", "dict"):
                 if o.items is not None:
                     n = len(o.items)
+                    if exact:
+                        return [(st, "val", n)]
                     return [(st, "val", n if n <= 2 else GE2)]
                 seq = o.fields.get("@seq")
                 if isinstance(seq, AbsSeq):
@@ -652,6 +683,18 @@ def call_builtin(self, st, name, args, kwargs, node):
             return [(st, "val", False)]
         return [(s, "val", b) for (s, b) in self.truth(st, args[0], node)]
     if name in ("str", "repr", "int", "float", "id", "hash", "abs", "round", "min", "max", "sum", "vars"):
+        if name in ("max", "min") and args and getattr(self, "int_sat", 2) > 2 and not kwargs:
+            vals = None
+            if len(args) == 1 and not isinstance(args[0], Top):
+                try:
+                    kind, seq = self.iter_values(st, args[0], node)
+                    vals = list(seq) if kind == "concrete" else None
+                except AnalysisError:
+                    vals = None
+            elif len(args) > 1:
+                vals = list(args)
+            if vals and all(isinstance(x, (int, str)) and not isinstance(x, bool) for x in vals) and len({type(x) for x in vals}) == 1:
+                return [(st, "val", max(vals) if name == "max" else min(vals))]
         if name == "sum" and len(args) == 1 and not isinstance(args[0], Top) and getattr(self, "int_sat", 2) > 2:
             try:
                 kind, seq = self.iter_values(st, args[0], node)
@@ -732,10 +775,17 @@ def call_builtin(self, st, name, args, kwargs, node):
             if not isinstance(v, Top):
                 kind, seq = self.iter_values(st, v, node)
                 if kind == "concrete":
+                    if getattr(self, "int_sat", 2) > 2:
+                        start = args[1] if len(args) > 1 and isinstance(args[1], int) else kwargs.get("start", 0)
+                        return [(st, "val", tuple(enumerate(seq, start if isinstance(start, int) else 0)))]
                     return [(st, "val", tuple((i if i < 2 else GE2, x) for i, x in enumerate(seq)))]
                 def fac(interp, s, _seq=seq):
                     return [(s2, (Top("index", True), e), lbl) for (s2, e, lbl) in _seq.factory(interp, s)]
                 return [(st, "val", AbsSeq("enumerate(%s)" % seq.name, fac, seq.nonempty))]
+        if name == "range" and args and getattr(self, "int_sat", 2) > 2 and all(isinstance(a, int) and not isinstance(a, bool) for a in args):
+            r = range(*args)
+            if len(r) <= 10000:
+                return [(st, "val", tuple(r))]
         if name == "zip" and args and not any(isinstance(a, Top) for a in args):
             parts = []
             try:
